@@ -20,6 +20,7 @@ import (
 	"bytes"
 	"context"
 	"encoding/json"
+	"errors"
 	"fmt"
 	"hash/fnv"
 	"io"
@@ -74,6 +75,11 @@ type Plan struct {
 	// no longer holds. NEVER generated (pebble never reuses DiskFileNums); it
 	// exists only to demonstrate why the assumption matters (see NOTES.md).
 	AllowFileReuse bool `json:"allowFileReuse,omitempty"`
+	// FailRefPut > 0: the n-th upload of a reference marker (counted over the
+	// gated phase, all providers) fails: the writer's Close returns an error and
+	// the marker does not exist. An attach / create whose marker upload failed
+	// must not report success.
+	FailRefPut int `json:"failRefPut,omitempty"`
 }
 
 type slotKey struct{ prov, file int }
@@ -138,6 +144,7 @@ type provState struct {
 }
 
 type world struct {
+	refPuts   int
 	plan      *Plan
 	inner     remote.Storage
 	provs     []*provState
@@ -243,7 +250,18 @@ func (gw *gateWriter) Close() error {
 		g.w.objByName[gw.name] = c.obj
 		g.w.objNames[c.obj] = gw.name
 	}
-	err := gw.inner.Close()
+	var err error
+	if strings.Contains(gw.name, ".ref.") && g.w.plan.FailRefPut > 0 {
+		g.w.refPuts++
+		if g.w.refPuts == g.w.plan.FailRefPut {
+			// the upload fails: nothing is stored
+			err = errors.New("injected upload failure")
+			g.w.labels["ref-marker-upload-failed"] = true
+		}
+	}
+	if err == nil {
+		err = gw.inner.Close()
+	}
 	g.w.after(g.ps, "put", gw.name, g.errStr(err))
 	return err
 }
